@@ -287,8 +287,13 @@ def tasks(tier, seed):
   K, S = (8, 5) if big else (5, 3)
   T = []
   names = list(_registry_names())
+  R = _registry()
+  FORKY = ("unwrap", "zcross", "zcross-hyst", "zcross-first-sign", "clip", "clip-low-only", "amdf")   # branch on the data
   for n in names:
-    T.append(("h_stage", {"stage": n, "K": (3 if not big else 4) if n == "unwrap" else K, "S": S}))
+    k = K
+    if n == "unwrap": k = 3 if not big else 4
+    elif n in FORKY: k = min(K, 5)
+    T.append(("h_stage", {"stage": n, "K": k, "S": S if n != "amdf" else min(S, 3)}))
   for n in ("Stream.filter", "ifilter", "takewhile", "dropwhile", "ifilterfalse"):
     T.append(("h_data_dependent", {"stage": n, "K": 4 if not big else 6}))
   samplewise = ["Stream+scalar", "Stream.map", "imap", "FIR", "IIR", "Cascade", "Parallel", "maverage.deque", "clip", "zcross",
@@ -304,7 +309,8 @@ def tasks(tier, seed):
       if big or b in ("blocks", "Stream.skip(n)"): pairs.append((b, a)) if b not in ("blocks",) else None
   for a, b in pairs:
     if a is None or b is None: continue
-    T.append(("h_chain", {"first": a, "second": b, "K": 3 if not big else 5, "S": 2 if not big else 3}))
+    forky = a in FORKY or b in FORKY
+    T.append(("h_chain", {"first": a, "second": b, "K": 3 if (not big or forky) else 5, "S": 2 if not big else 3}))
   for meth in ("take", "peek"):
     T.append(("h_peek_take", {"meth": meth, "K": K}))
   return T
